@@ -6,6 +6,7 @@ from harness.common import Machinery
 LAW_CFG = "INIT LawInit\nNEXT LawNext\nINVARIANT LawsHold\nCONSTANT L = 5\nCHECK_DEADLOCK FALSE\n"
 ENUMB_CFG = "INIT EnumBInit\nNEXT EnumBNext\nCONSTANT L = 5\nCHECK_DEADLOCK FALSE\n"
 ENUMI_CFG = "INIT EnumIInit\nNEXT EnumINext\nCONSTRAINT EnumIEmit\nCONSTANT L = %d\nCHECK_DEADLOCK FALSE\n"
+ENUMC_CFG = "INIT EnumCInit\nNEXT EnumCNext\nCONSTRAINT EnumCEmit\nCONSTANT L = %d\nCHECK_DEADLOCK FALSE\n"
 JUDGE_CFG = "INIT JudgeInit\nNEXT JudgeNext\nCONSTANT L = 5\nCHECK_DEADLOCK FALSE\n"
 
 
@@ -179,6 +180,16 @@ def random_traces(rng, n):
                 else:
                     evs.append({"op": "get", "nm": nm})
             out.append(evs)
+        elif i % 20 == 9:
+            # a call history: one function value, several invocations, random argument vectors and return values
+            mk = rng.choice(["direct", "bind", "bind", "bindbind"])
+            pre = [rnd_js(rng, 1) for _ in range(rng.choice([0, 1, 2, 3]))] if mk != "direct" else []
+            pre2 = [rnd_js(rng, 1) for _ in range(rng.choice([0, 1, 2]))] if mk == "bindbind" else []
+            inv = [{"form": rng.choice(["call", "method", "fcall", "apply", "foreach", "map"]),
+                    "args": [rnd_js(rng, 2) for _ in range(rng.choice([0, 1, 1, 2, 3, 5]))]} for _ in range(rng.choice([1, 2, 3, 4, 5]))]
+            out.append([{"op": "callseq", "mk": mk, "thisv": rnd_js(rng, 1), "pre": pre, "pre2": pre2, "inv": inv,
+                         "rets": [rnd_py(rng, rng.choice([0, 0, 1, 2])) for _ in range(rng.choice([1, 2, 3, 7]))],
+                         "split": rng.random() < 0.5}])
         else:
             form = rng.choice(forms)
             args = [rnd_js(rng, 2) for _ in range(rng.choice([0, 1, 2, 3, 4, 6]))]
@@ -218,6 +229,12 @@ def show_event(ev):
         return "set(%s, %s)" % (ev["nm"], show_pw(ev["v"]))
     if op in ("evalexpr", "evalset"):
         return "%s(%s%s)" % (op, (ev.get("nm", "") + " = ") if op == "evalset" else ev.get("form", "") + " ", wire.show(ev["e"]))
+    if op == "callseq":
+        mk = {"direct": "h", "bind": "h.bind(%s)", "bindbind": "h.bind(%s).bind(%s)"}[ev["mk"]]
+        pres = [", ".join([wire.show(ev["thisv"])] + [wire.show(a) for a in ev[p]]) for p in ("pre", "pre2")]
+        mk = mk % tuple(pres[:mk.count("%s")])
+        return "callseq[f = %s%s] %s" % (mk, ", one eval per step" if ev["split"] else "",
+                                         " ; ".join("%s(%s)" % (iv["form"], ", ".join(wire.show(a) for a in iv["args"])) for iv in ev["inv"]))
     if op == "hostcall":
         return "hostcall[%s](%s) returning %s" % (ev["form"], ", ".join(wire.show(a) for a in ev["args"]), show_pw(ev["ret"]))
     return "%s(%s)" % (op, ev.get("nm", ""))
@@ -288,6 +305,24 @@ def run(rep):
                                     "ones are prefixes)" % ("set/get/eval(name)/eval(mutate)" if alpha == "small" else
                                                             "set/get/eval(name)/eval(mutate)/mutate-returned/mutate-passed", length),
                            "cases": len(traces) - n0, "complete": True})
+    # call histories: one function value made from the exposed callable, invoked L times
+    hl = 2 if rep.tier == "quick" else 3
+    res = tlc.run(rep.pid, "C11", ENUMC_CFG % hl, env={"TIER": rep.tier}, timeout=1500, tag="enumC_%d" % hl, heap="4g")
+    rep.add_tlc("C11.Enum(call histories,L=%d)" % hl, res)
+    n0, seen = len(traces), set()
+    for r in res.records:
+        if "t" in r:
+            k = json.dumps(r["t"], sort_keys=True, separators=(",", ":"))
+            if k not in seen:
+                seen.add(k)
+                traces.append(k)
+    del res, seen
+    if len(traces) - n0 < 5000:
+        raise Machinery("call-history enumeration produced %d histories" % (len(traces) - n0))
+    rep.spaces.append({"space": "call histories: function value made from the exposed callable (itself / bind with 0-2 pre-filled "
+                                "arguments / bound twice) x this value x one script or one eval per step x ALL sequences of exactly "
+                                "%d invocations over 6 invocation forms x 0..2 arguments (TLC-enumerated)" % hl,
+                       "cases": len(traces) - n0, "complete": True})
     ne = len(traces)
     rng = random.Random(rep.seed)
     nrand = 3000 if rep.tier == "quick" else 60000
@@ -338,7 +373,7 @@ def run(rep):
             detail = {"clause": w["clause"], "at": w["at"], "event": show_event(ev).encode("ascii", "backslashreplace").decode(),
                       "outcome": ev.get("o"), "error": ev.get("err"),
                       "expected": show_pw(w["exp"]) if w["clause"] in ("get", "evalname", "evalexpr", "jsview") else None,
-                      "actual": show_pw(ev["out"]) if "out" in ev else {"calls": ev.get("calls"), "got": ev.get("got")},
+                      "actual": show_pw(ev["out"]) if "out" in ev else {"calls": ev.get("calls"), "got": ev.get("got", ev.get("gots"))},
                       "trace": r["ev"]}
             rep.mismatch("t%d: %s @%d %s" % (tid, show_trace(r["ev"]), w["at"], w["clause"]), detail, dev=v.get("dev", ""))
         del results, verdicts, got, byid, cases, part
